@@ -13,6 +13,14 @@ type fold struct {
 	err     *file.Error
 }
 
+// isInt tells whether an integer literal is still an int: the checker gives a
+// literal passed as a call argument the parameter's type (uint8, float64, ...),
+// and then int arithmetic at compile time is not what the VM would compute.
+func isInt(n *IntegerNode) bool {
+	t := n.Type()
+	return t == nil || t.Kind() == reflect.Int
+}
+
 func (*fold) Enter(*Node) {}
 func (fold *fold) Exit(node *Node) {
 	patch := func(newNode Node) {
@@ -30,11 +38,11 @@ func (fold *fold) Exit(node *Node) {
 	case *UnaryNode:
 		switch n.Operator {
 		case "-":
-			if i, ok := n.Node.(*IntegerNode); ok {
+			if i, ok := n.Node.(*IntegerNode); ok && isInt(i) {
 				patchWithType(&IntegerNode{Value: -i.Value}, n.Node.Type())
 			}
 		case "+":
-			if i, ok := n.Node.(*IntegerNode); ok {
+			if i, ok := n.Node.(*IntegerNode); ok && isInt(i) {
 				patchWithType(&IntegerNode{Value: i.Value}, n.Node.Type())
 			}
 		}
@@ -42,8 +50,8 @@ func (fold *fold) Exit(node *Node) {
 	case *BinaryNode:
 		switch n.Operator {
 		case "+":
-			if a, ok := n.Left.(*IntegerNode); ok {
-				if b, ok := n.Right.(*IntegerNode); ok {
+			if a, ok := n.Left.(*IntegerNode); ok && isInt(a) {
+				if b, ok := n.Right.(*IntegerNode); ok && isInt(b) {
 					patchWithType(&IntegerNode{Value: a.Value + b.Value}, a.Type())
 				}
 			}
@@ -53,20 +61,20 @@ func (fold *fold) Exit(node *Node) {
 				}
 			}
 		case "-":
-			if a, ok := n.Left.(*IntegerNode); ok {
-				if b, ok := n.Right.(*IntegerNode); ok {
+			if a, ok := n.Left.(*IntegerNode); ok && isInt(a) {
+				if b, ok := n.Right.(*IntegerNode); ok && isInt(b) {
 					patchWithType(&IntegerNode{Value: a.Value - b.Value}, a.Type())
 				}
 			}
 		case "*":
-			if a, ok := n.Left.(*IntegerNode); ok {
-				if b, ok := n.Right.(*IntegerNode); ok {
+			if a, ok := n.Left.(*IntegerNode); ok && isInt(a) {
+				if b, ok := n.Right.(*IntegerNode); ok && isInt(b) {
 					patchWithType(&IntegerNode{Value: a.Value * b.Value}, a.Type())
 				}
 			}
 		case "/":
-			if a, ok := n.Left.(*IntegerNode); ok {
-				if b, ok := n.Right.(*IntegerNode); ok {
+			if a, ok := n.Left.(*IntegerNode); ok && isInt(a) {
+				if b, ok := n.Right.(*IntegerNode); ok && isInt(b) {
 					if b.Value == 0 {
 						fold.err = &file.Error{
 							Location: (*node).Location(),
@@ -78,8 +86,8 @@ func (fold *fold) Exit(node *Node) {
 				}
 			}
 		case "%":
-			if a, ok := n.Left.(*IntegerNode); ok {
-				if b, ok := n.Right.(*IntegerNode); ok {
+			if a, ok := n.Left.(*IntegerNode); ok && isInt(a) {
+				if b, ok := n.Right.(*IntegerNode); ok && isInt(b) {
 					if b.Value == 0 {
 						fold.err = &file.Error{
 							Location: (*node).Location(),
@@ -91,8 +99,8 @@ func (fold *fold) Exit(node *Node) {
 				}
 			}
 		case "**":
-			if a, ok := n.Left.(*IntegerNode); ok {
-				if b, ok := n.Right.(*IntegerNode); ok {
+			if a, ok := n.Left.(*IntegerNode); ok && isInt(a) {
+				if b, ok := n.Right.(*IntegerNode); ok && isInt(b) {
 					patch(&FloatNode{Value: math.Pow(float64(a.Value), float64(b.Value))})
 				}
 			}
